@@ -382,8 +382,10 @@ static void per_grid(Harness &H, const std::string &d0, const Grid<S> &g, size_t
 static void run(Harness &H) {
   std::string part = H.args.count("part") ? H.args["part"] : "all";
   std::vector<std::string> fams = H.thorough() ? std::vector<std::string>{"nonuni", "far", "uni", "neg"} : std::vector<std::string>{"nonuni", "far"};
+  if (H.thorough()) fams.push_back("nonuni6");  // one larger grid (22 windows, 484 ordered pairs)
   for (auto fam : fams) {
     size_t n = 5;
+    if (fam == "nonuni6") { fam = "nonuni"; n = 6; }
     auto pts = grid_family(fam, n);
     Grid<S> g = mkgrid<S>(pts);
     std::string d0 = fam + std::to_string(n);
